@@ -104,18 +104,21 @@ def a32_imm_offsets(rng, tier):
     return sorted(out)
 
 
-def gen_ops(fmts, rng, tier):
+def gen_ops(fmts, rng, tier, light=()):
+    """`light`: formats that get the quick-tier amount of random offsets and exhaustive ranges only up to 16 bits even in the
+    thorough tier (the random generic geometries: there are hundreds of them)"""
     ops = []
-    nrand = 600 if tier == "quick" else 20000
+    light = set(light)
     for f in fmts:
         t, sz, shift, bits, dis = f
+        nrand = 600 if (tier == "quick" or f in light) else 20000
         for off in boundary_offsets(f, rng, nrand):
             ops.append("enc %s %x" % (fmt_words(f), off))
         if t == "a32Adr":
             for off in a32_imm_offsets(rng, tier):
                 ops.append("enc %s %x" % (fmt_words(f), off))
         # exhaustive over the field (+ a band outside it) in bulk mode
-        maxbits = 16 if tier == "quick" else 26
+        maxbits = 16 if (tier == "quick" or f in light) else (21 if t in TYPECODE and TYPECODE[t] >= 4 else 26)
         if bits <= maxbits:
             unit = 1 << dis
             total = (1 << bits) * 2          # whole signed/unsigned range and as much again outside
@@ -126,7 +129,7 @@ def gen_ops(fmts, rng, tier):
             if dis:
                 ops.append("range %s %x %d %x" % (fmt_words(f), (lo + 1) & M64, 1 << 12, 1))
         # write_offset on buffers whose field is zero, at several value offsets
-        for _ in range(40 if tier == "quick" else 1500):
+        for _ in range(40 if (tier == "quick" or f in light) else 1500):
             voff = rng.randrange(0, 4)
             pos = rng.randrange(0, 3)
             size = pos + voff + sz + rng.randrange(0, 3)
@@ -159,7 +162,7 @@ def gen_ops(fmts, rng, tier):
 def gen_generic_formats(rng, tier):
     """signed / unsigned geometries NO backend uses: the parametric theorems (Props/C17Generic.lean) claim them all"""
     out = set()
-    for _ in range(40 if tier == "quick" else 600):
+    for _ in range(40 if tier == "quick" else 400):
         t = rng.choice(("signed", "unsigned"))
         sz = rng.choice((1, 2, 4, 8))
         bits = rng.randrange(1, 8 * sz + 1)
@@ -386,7 +389,7 @@ def run(res):
     allf = sorted(set(fmts) | set(proved) | set(ARM32) | set(generic))
     allf = [f for f in allf if f[0] in TYPECODE]
     res.coverage["formats_exercised"] = {"in_use_or_proved": len(set(fmts) | set(proved)), "thumb_a32": len(ARM32), "generic_geometries": len(generic)}
-    ops = gen_ops(allf, rng, res.tier) + gen_a64_ops(rng, res.tier) + gen_direct_ops(rng, res.tier) + gen_bf_ops(rng, res.tier)
+    ops = gen_ops(allf, rng, res.tier, light=set(generic) - set(fmts) - set(proved)) + gen_a64_ops(rng, res.tier) + gen_direct_ops(rng, res.tier) + gen_bf_ops(rng, res.tier)
     # undefined behaviour of the pinned tree (fixes/C17-2.patch): probe each class in its own process; the main run skips
     # those inputs ("skip-ub") until the tree is repaired
     ub_found = []
